@@ -148,8 +148,8 @@ Print Assumptions C02_parsed_records_are_typed.
    implies that the format can carry its column names: the repaired
    MafWriter.__iadd__ refuses a first name starting with '#' and any name
    containing TAB, CR or LF with ValueError before writing anything
-   (C02_uncarriable_names_refused below; formerly two known findings).  The
-   only premise left on the names: there is at least one column.
+   and a first record without columns too (C02_uncarriable_names_refused
+   below; formerly known findings).  No premise on the names is left.
    Then: the reader settles on exactly those names, returns one record per
    record whose cells are the same names in the same order, each holding the
    text that was written for it, without validation error; the second write
@@ -166,7 +166,6 @@ Theorem C02_round_trip_schemeless :
     forall hl m0 lg0 l0 (h : header) (m : mode) (r1 : mrec C W) (rest : list (mrec C W)) (translate : bool),
       header_from_lines registry hl m0 lg0 = (l0, Ok h) -> Forall no_crlf hl ->
       h_scheme registry (hrecs h) = Ok None ->
-      record_names r1 <> [] ->
       let s := no_restrictions (record_names r1) in
       let rs := r1 :: rest in
       let w1 := write_file sem registry h (Some m) rs in
@@ -215,7 +214,7 @@ Print Assumptions C02_uncarriable_names_refused.
 
 (* ... and what passes the writer's check is what the column line can carry *)
 Theorem C02_writable_names_are_carriable :
-  forall names : list str, names <> [] -> names_writable names = true -> carriable names.
+  forall names : list str, names_writable names = true -> carriable names.
 Proof. exact names_writable_carriable. Qed.
 Print Assumptions C02_writable_names_are_carriable.
 
@@ -407,6 +406,36 @@ Theorem C02_value_hazard_refuted :
   option_map (@wr_text unit bool) (rt_second rt) = Some (wr_text (rt_first rt)).
 Proof. vm_compute. repeat split; reflexivity. Qed.
 Print Assumptions C02_value_hazard_refuted.
+
+(* `typed_by` asks that a stored value be one its class BUILDS.  A column
+   object constructed directly (MafColumnRecord subclass constructor) can hold
+   a value that validation accepts and that renders like a built one, but that
+   parsing never produces (maf-lib: StringOrIntegerColumn('Chromosome', '01')
+   holds the str '01', which is written as 01 and read back as the int 1;
+   NullableStringColumn(..., '') -> None; EntrezGeneId(..., 0) -> None).  The
+   writer accepts it, the text round-trips, the typed value does not.  Known
+   findings "typed-value-differs/api-built-noncanonical/<class>".  Here: a class
+   whose values carry a tag (how they came to be) next to their text; parsing
+   always tags `true`. *)
+Definition api_sem : colsem unit (bool * str) :=
+  {| cs_build := fun _ t => Some (true, t);
+     cs_invalid := fun _ _ => false;
+     cs_str := fun _ w => Some (snd w);
+     cs_isinst := fun _ _ => true;
+     cs_key_text := fun _ _ => None;
+     cs_key_int := fun _ _ => None |}.
+(* the record a caller builds with the constructor: column a holds (false, "01") *)
+Definition api_rec : mrec unit (bool * str) :=
+  {| mline := None; mcols := canon_rec [(t_a, PTyped tt (false, [48;49]%N))]; merrs := []; mmode := Silent |}.
+Theorem C02_api_built_value_refuted :
+  let rt := round_trip_of api_sem [hz_layout] (skey_of api_sem (fun _ => None)) skey_lt hz_header (Some Strict) [api_rec] false in
+  wr_clean (rt_first rt) = true /\
+  wr_text (rt_first rt) = [35;118;101;114;115;105;111;110;32;118;49;10; 97;10; 48;49;10]%N /\
+  cells_of_rec (mcols api_rec) = [(t_a, PTyped tt (false, [48;49]%N))] /\
+  map (fun r => cells_of_rec (mcols r)) (run_recs (rt_read rt)) = [[(t_a, PTyped tt (true, [48;49]%N))]] /\
+  option_map (@wr_text unit (bool * str)) (rt_second rt) = Some (wr_text (rt_first rt)).
+Proof. vm_compute. repeat split; reflexivity. Qed.
+Print Assumptions C02_api_built_value_refuted.
 
 (* ====================================================================== *)
 (* the built-in layouts, with the concrete column model                    *)
